@@ -29,12 +29,19 @@ type c13Params struct {
 	Faulty      []int
 	ReadDelayMs int
 	D           int // deviation bound of this scenario (0 = tier default)
+	// Stuck: sessions whose client never reads its output (a stalled or vanished client): the session's queue of
+	// 100 lines fills and its read blocks in a send; such a session is ended after two (virtual) seconds.  With
+	// Mode "grepb" the command is a grep with 49 lines of before-context and a match on every 50th line.
+	Stuck []int
 }
 
 func (p c13Params) String() string {
 	s := fmt.Sprintf("mode=%s limit=%d sessions=%d files=%d lines=%d cancel=%v truncate=%v", p.Mode, p.Limit, p.Sessions, p.Files, p.Lines, p.Cancel, p.Truncate)
 	if len(p.Faulty) > 0 {
 		s += fmt.Sprintf(" failing-read-in-sessions=%v readdelay=%dms", p.Faulty, p.ReadDelayMs)
+	}
+	if len(p.Stuck) > 0 {
+		s += fmt.Sprintf(" client-never-reads-in-sessions=%v (ended after 2 s)", p.Stuck)
 	}
 	return s
 }
@@ -122,18 +129,34 @@ func c13Scenario(p c13Params) *explore.Scenario {
 			for _, c := range p.Cancel {
 				cancelled[c] = true
 			}
+			stuck := map[int]bool{}
+			for _, c := range p.Stuck {
+				stuck[c] = true
+				cancelled[c] = true // its output is not checked
+			}
 			for i := 0; i < p.Sessions; i++ {
 				s := NewServerSession(fmt.Sprintf("s%d", i), "verifuser", cat, tail)
 				ss = append(ss, s)
-				vrt.Go("pump", func() { s.Pump(32 * 1024) })
-				if p.Mode == "map" {
+				if stuck[i] {
+					// nobody reads; the session ends two seconds later, when its read sits in a send
+					vrt.Go("vanished-client", func() {
+						vrt.Sleep("stalled", 2*time.Second)
+						s.H.Shutdown()
+						s.Done.Close("ended")
+					})
+				} else {
+					vrt.Go("pump", func() { s.Pump(32 * 1024) })
+				}
+				if p.Mode == "grepb" {
+					s.H.Write(WireCommand(fmt.Sprintf("grep:before=49 %s/s%d/*.log* regex:default l[0-9]*(50|00)$", dir, i)))
+				} else if p.Mode == "map" {
 					// a dmap session: the map command, then the read command feeding it
 					s.H.Write(WireCommand("map select count($line) group by $hostname logformat generic"))
 					s.H.Write(WireCommand(fmt.Sprintf("cat %s/s%d/*.log* regex:noop ", dir, i)))
 				} else {
 					s.H.Write(WireCommand(fmt.Sprintf("%s %s/s%d/*.log* regex:noop ", p.Mode, dir, i)))
 				}
-				if cancelled[i] {
+				if cancelled[i] && !stuck[i] {
 					vrt.Go("cancel", func() {
 						vrt.Yield("cancel")
 						s.H.Shutdown()
@@ -217,6 +240,8 @@ func c13Sig(msg string, v *explore.Violation) string {
 		return "slot-leaked"
 	case strings.Contains(msg, "delivered"):
 		return "queued-read-did-not-complete"
+	case strings.HasPrefix(msg, "horizon"):
+		return "read-of-an-ended-session-keeps-its-slot-or-a-queued-read-never-proceeds"
 	case strings.HasPrefix(msg, "deadlock"):
 		return "deadlock"
 	case strings.HasPrefix(msg, "panic"):
@@ -236,6 +261,8 @@ func c13Params_(tier string) (ps []c13Params, d int) {
 			{Mode: "map", Limit: 1, Sessions: 2, Files: 2, Lines: 1, Cancel: []int{1}},
 			{Mode: "cat", Limit: 2, Sessions: 4, Files: 1, Lines: 1, Faulty: []int{1}, ReadDelayMs: 500, D: 1},
 			{Mode: "cat", Limit: 1, Sessions: 3, Files: 1, Lines: 1, Faulty: []int{0}, ReadDelayMs: 500, D: 1},
+			{Mode: "grepb", Limit: 1, Sessions: 2, Files: 1, Lines: 300, Stuck: []int{0}, D: 1},
+			{Mode: "cat", Limit: 1, Sessions: 2, Files: 1, Lines: 300, Stuck: []int{0}, D: 1},
 		}, 2
 	}
 	for _, mode := range []string{"cat", "tail", "map"} {
@@ -263,7 +290,9 @@ func c13Params_(tier string) (ps []c13Params, d int) {
 	}
 	ps = append(ps, c13Params{Mode: "cat", Limit: 2, Sessions: 4, Files: 1, Lines: 1, Faulty: []int{1}, ReadDelayMs: 500, D: 2},
 		c13Params{Mode: "cat", Limit: 2, Sessions: 4, Files: 1, Lines: 1, Faulty: []int{0, 2}, ReadDelayMs: 500, D: 1},
-		c13Params{Mode: "map", Limit: 2, Sessions: 4, Files: 1, Lines: 1, Faulty: []int{1}, ReadDelayMs: 500, D: 1})
+		c13Params{Mode: "map", Limit: 2, Sessions: 4, Files: 1, Lines: 1, Faulty: []int{1}, ReadDelayMs: 500, D: 1},
+		c13Params{Mode: "grepb", Limit: 1, Sessions: 3, Files: 1, Lines: 300, Stuck: []int{0}, D: 1},
+		c13Params{Mode: "grepb", Limit: 2, Sessions: 3, Files: 2, Lines: 300, Stuck: []int{0, 1}, D: 1})
 	return ps, 3
 }
 
@@ -272,7 +301,7 @@ func init() {
 		ID:    "C13",
 		Level: "model_checking",
 		Rule: "stateless exploration of all schedules within a deviation bound of 2-3 real ServerHandler sessions sharing one limiter (cat, tail and mapreduce reads, limit 1-2, " +
-			"1-2 files per session, optional cancellation of sessions at any point, sessions whose read fails after taking its slot while slow reads of other sessions are running); a case is one execution; distinct = distinct (scenario, observable outcome) pairs",
+			"1-2 files per session, optional cancellation of sessions at any point, sessions whose read fails after taking its slot while slow reads of other sessions are running, sessions whose client never reads (the read blocks in a send, incl. the flush of grep before-context) and that end two seconds later); a case is one execution; distinct = distinct (scenario, observable outcome) pairs",
 		Assumptions: []string{
 			"code between two synchronisation operations is atomic (data-race freedom; checked separately by the free-running -race pass)",
 			"virtual time advances only when no goroutine is runnable",
